@@ -374,8 +374,8 @@ def stepSmh2 (st : DState) : List String → DState × String
   | ["dump", n] => match st.smh2[n]? with | some s => (st, dumpSmh2 s) | none => (st, "bad-op")
   | _ => (st, "bad-op")
 
-def sskOps : SskOps Xo :=
-  { nextE := exp1, nextU := fun g => g.next, offsetOf := fun u n => FY.offsetOf (unif01OfU64 u) n }
+def sskOps (s : SSK) : SskOps Float Xo :=
+  SSK.floatOps exp1 (fun g => g.next) (fun u n => FY.offsetOf (unif01OfU64 u) n) s.m s.a s.q s.lnb
 
 def stepSsk (st : DState) : List String → DState × String
   | ["new", n, b, m, a, q, imax] => match f64OfHex b, m.toNat?, f64OfHex a, q.toNat?, imax.toNat? with
@@ -383,7 +383,7 @@ def stepSsk (st : DState) : List String → DState × String
       ({ st with ssk := st.ssk.insert n (SSK.new b m a q imax (Float.log1p (b - 1.0))) }, "ok")
     | _, _, _, _, _ => (st, "bad-op")
   | ["sk", n, sd] => match st.ssk[n]?, u64OfHex sd with
-    | some s, some sd => (match s.sketch sskOps (Xo.seedFromU64 sd) with
+    | some s, some sd => (match s.sketch (sskOps s) (Xo.seedFromU64 sd) with
       | .ok s' => ({ st with ssk := st.ssk.insert n s' }, "ok") | .error e => (st, errWord e))
     | _, _ => (st, "bad-op")
   | ["merge", n, o] => match st.ssk[n]?, st.ssk[o]? with
